@@ -11,9 +11,10 @@ EXPLANATION = (
     "res[index_of(p)] += cycles / len(ports) for every p of every (cycles, ports) of the selected micro-op "
     "list (option 0 by default) - non-negativity, support within the allowed ports, sum = total cycles and the "
     "Hall condition then hold by construction. R1b: on every path of assign_tp_lt port_pressure and port_uops are "
-    "assigned from the same micro-op source (zero vector <-> []; average(x) <-> x; composed: C08-R1). R2: every "
+    "assigned from the same micro-op source (zero vector <-> []; average(x) <-> x; composed: C08-R1), and inside the "
+    "balancer the two are always replaced together from the same source in the same block. R2: every "
     "store into an instruction's port_pressure inside the balancer is indexed by a value originating from "
-    "`indices` = [port_list.index(p) for p in ports] of the current micro-op. R3: every update by the quantum INC "
+    "`indices` = [port_list.index(p) for p in ports] of the current micro-op (or a filter of it). R3: every update by the quantum INC "
     "occurs as a pair -= INC / += INC on instr_ports and on differences; the decrement index originates from "
     "max(port_sums), the increment index from min(port_sums); the residual clean-up is the only unpaired update. "
     "R4: the per-micro-op cap differences = cycles/len(ports) is only sound on a uniformly split instruction: "
